@@ -263,6 +263,8 @@ struct World {
     /// cache for image building: (index just after a sync, image at that point)
     cache: Option<(usize, Vec<u8>)>,
     eps_cache: Option<(usize, Arc<Vec<Vec<Ev>>>)>,
+    /// header clock (seconds after a fixed instant), see `tick`
+    clock: u64,
     /// number of crashes this history has lived through
     incarnation: usize,
     /// medium this incarnation started from (empty for the first one, the crash image after)
@@ -285,9 +287,20 @@ impl World {
             expect: vec![],
             cache: None,
             eps_cache: None,
+            clock: 0,
             incarnation: 0,
             base: vec![],
         }
+    }
+
+    /// DETERMINISTIC header timestamps (one second apart, from a fixed instant).  With wall-clock
+    /// times the protobuf size of a header varies by a few bytes from run to run (varint nanos),
+    /// which now and then moves a B-tree page split, so that the generation-time run and the
+    /// replayed run of the same history issue different page writes (`nondeterministic-log`).
+    fn tick(&mut self) {
+        self.clock += 10;
+        let t = tendermint::Time::from_unix_timestamp(1_700_000_000 + self.clock as i64, 0).unwrap();
+        self.generator.set_time(t, std::time::Duration::from_secs(1));
     }
 
     fn add_header(&mut self, name: &str, h: ExtendedHeader) {
@@ -311,6 +324,7 @@ impl World {
                     if lo != 1 {
                         return None;
                     }
+                    self.tick();
                     let g = self.generator.next();
                     self.add_header(&format!("{letter}{lo}"), g.clone());
                     g
@@ -319,6 +333,7 @@ impl World {
             };
             let start = if from.is_none() { lo + 1 } else { lo };
             for h in start..=hi {
+                self.tick();
                 let nh = self.generator.next_of(&prev);
                 debug_assert_eq!(nh.height(), h);
                 self.add_header(&format!("{letter}{h}"), nh.clone());
